@@ -1005,85 +1005,97 @@ def formatter_structure():
 
 # --------------------------------------------------------------------------- emit
 
-HEADER = '''/-
+HEADER = """/-
   GENERATED by harness/extractors/schemas.py from the working tree of placement -- do not edit.
   %s
 -/
-'''
+"""
 
 
 def ver(t):
     return '(%d, %d)' % t
 
 
-def gen_schemas():
-    schemas, ids = collect_schemas()
-    lines = [HEADER % 'JSON schemas of placement.schemas.* (runtime objects), regexes of placement.schemas.common, '
-                      'handler -> schema map.',
-             'import Placement.Model.Schema', '',
-             'namespace Placement.Gen.Schemas', '', 'open Placement Placement.Regex', '']
-    bymod = {}
-    for m, n, d in schemas:
-        bymod.setdefault(m, []).append((n, d))
-    # regex constants of common
-    import placement.schemas.common as common
-    lines.append('namespace common')
-    for n in sorted(vars(common)):
-        v = vars(common)[n]
-        if n.startswith('__') or not isinstance(v, str):
-            continue
-        lines.append('/-- %s = %s -/' % (n, lean_str(v).replace('-/', '- /')))
-        lines.append('def %s : Re := %s' % (lean_ident(n), regex_to_lean(v)))
-    lines.append('end common')
-    lines.append('')
-    allnames = []
-    for m in sorted(bymod):
-        if m == 'common':
-            raise ExtractError('schema dict in placement.schemas.common')
-        lines.append('namespace %s' % lean_ident(m))
-        for n, d in bymod[m]:
-            lines.append('def %s : Schema :=\n  %s' % (lean_ident(n), schema_to_lean(d, '%s.%s' % (m, n))))
-            lines.append('')
-            allnames.append('%s.%s' % (m, n))
-        lines.append('end %s' % m)
-        lines.append('')
-    lines.append('/-- every schema by its Python name (`module.CONSTANT`) -/')
-    lines.append('def all : List (String × Schema) := [')
-    lines.append(',\n'.join('  (%s, %s)' % (lean_str(n), n) for n in allnames))
-    lines.append(']')
-    lines.append('')
-    rows, funcs_by_mod, allv = handler_schema_map(ids)
-    lines.append('/-- (handler, what is validated, first version, last version, schema) : the schema constant a handler')
-    lines.append('passes to `util.extract_json` (body), `util.validate_query_params` (query) or validates a path')
-    lines.append('segment with (path), per microversion window -/')
-    lines.append('def handlerSchemas : List (String × String × (Nat × Nat) × (Nat × Nat) × String) := [')
-    lines.append(',\n'.join('  (%s, %s, %s, %s, %s)' % (lean_str(h), lean_str(k), ver(lo), ver(hi), lean_str(s))
-                            for (h, k, lo, hi, s) in sorted(rows)))
-    lines.append(']')
-    lines.append('')
-    lines.append('def versions : List (Nat × Nat) := %s' % lean_list(ver(v) for v in allv))
-    lines.append('')
-    lines.append('end Placement.Gen.Schemas')
-    return '\n'.join(lines) + '\n', rows, funcs_by_mod
+def mangle(name):
+    out = re.sub(r'[^A-Za-z0-9_]', '_', name)
+    if not re.match(r'^[A-Za-z_]', out):
+        out = '_' + out
+    return out
 
 
-def gen_errors(funcs_by_mod):
+def enum_names(full_names, short=lambda n: n):
+    """full name -> Lean constructor name; short names where unambiguous, mangled full names otherwise"""
+    byshort = {}
+    for n in full_names:
+        byshort.setdefault(mangle(short(n)), []).append(n)
+    out = {}
+    used = set()
+    for n in sorted(full_names):
+        c = mangle(short(n))
+        if len(byshort[c]) > 1:
+            c = mangle(n)
+        if c in used:
+            raise ExtractError('constructor name clash for %s' % n)
+        used.add(c)
+        out[n] = c
+    return out
+
+
+def emit_enum(lines, typ, names, doc):
+    """`names`: full name -> constructor"""
+    lines.append('/-- %s -/' % doc)
+    lines.append('inductive %s where' % typ)
+    for n in sorted(names):
+        lines.append('  | %s' % names[n])
+    lines.append('deriving Repr, DecidableEq, Inhabited')
+    lines.append('')
+    lines.append('def %s.name : %s → String' % (typ, typ))
+    for n in sorted(names):
+        lines.append('  | .%s => %s' % (names[n], lean_str(n)))
+    lines.append('')
+    lines.append('def %s.all : List %s := %s' % (typ, typ, lean_list('.' + names[n] for n in sorted(names))))
+    lines.append('')
+
+
+def gen_all():
     from placement import errors
+    schemas, ids = collect_schemas()
+    rows, funcs_by_mod, allv = handler_schema_map(ids)
     func_rows, calls, closure = error_tables(funcs_by_mod)
-    lines = [HEADER % 'except-maps of the handlers, exception hierarchy, error codes, structure of json_error_formatter.',
-             '', 'namespace Placement.Gen.Errors', '',
-             '/-- what an `except` clause does -/',
-             'inductive Action where',
-             '  | http (webobClass : String) (status : Nat) (code : String)',
-             '  | reraise',
-             '  | raise (what : String)',
-             '  | handled',
-             'deriving Repr, DecidableEq', '',
-             'structure Clause where',
-             '  tryOrdinal : Nat',
-             '  classes : List String',
-             '  action : Action',
-             'deriving Repr, DecidableEq', '']
+    rh = route_handlers()
+
+    # ------------------------------------------------------------------ Errors.lean
+    exc_full = set()
+    for k in func_rows:
+        for c in func_rows[k]:
+            exc_full.update(c[1])
+    hier = exception_hierarchy()
+    for c, anc in hier:
+        exc_full.add(c)
+        exc_full.update(anc)
+    exc = enum_names(exc_full, short=lambda n: n.split('.')[-1])
+    fn = enum_names(set(func_rows), short=lambda n: n)
+    handlers = sorted(set('%s.%s' % (mn, f) for (_, _, mn, f) in rh))
+    hd = enum_names(set(handlers), short=lambda n: n)
+
+    E = [HEADER % 'except-maps of the handlers, exception hierarchy, error codes, structure of json_error_formatter.',
+         '', 'namespace Placement.Gen.Errors', '']
+    emit_enum(E, 'Exc', exc, 'every exception class named in an `except` clause of placement/handlers/*.py, '
+                             'placement/util.py, placement/handler.py, and every class of placement.exception with its ancestors')
+    emit_enum(E, 'Fn', fn, 'every function definition of those files (`#n` = n-th definition of that name in its module)')
+    emit_enum(E, 'Handler', hd, 'the functions ROUTE_DECLARATIONS dispatches to')
+    E += ['/-- what an `except` clause does -/',
+          'inductive Action where',
+          '  | http (webobClass : String) (status : Nat) (code : String)',
+          '  | reraise',
+          '  | raise (what : String)',
+          '  | handled',
+          'deriving Repr, DecidableEq', '',
+          'structure Clause where',
+          '  tryOrdinal : Nat',
+          '  classes : List Exc',
+          '  action : Action',
+          'deriving Repr, DecidableEq', '']
 
     def clause(c):
         ti, classes, kind, wcls, status, code = c
@@ -1093,83 +1105,136 @@ def gen_errors(funcs_by_mod):
             act = '(.raise %s)' % lean_str(wcls)
         else:
             act = '.' + kind
-        return '⟨%d, %s, %s⟩' % (ti, lean_list(lean_str(x) for x in classes), act)
+        return '⟨%d, %s, %s⟩' % (ti, lean_list('.' + exc[x] for x in classes), act)
 
-    lines.append('/-- per function (name, `#n` = n-th def of that name): its `except` clauses in source order -/')
-    lines.append('def funcClauses : List (String × List Clause) := [')
-    lines.append(',\n'.join('  (%s, %s)' % (lean_str(k), lean_list(clause(c) for c in func_rows[k]))
-                            for k in sorted(func_rows)))
-    lines.append(']')
-    lines.append('')
-    lines.append('/-- per function: the functions of placement.handlers / placement.util it calls (source order) -/')
-    lines.append('def funcCalls : List (String × List String) := [')
-    lines.append(',\n'.join('  (%s, %s)' % (lean_str(k), lean_list(lean_str(c) for c in calls[k])) for k in sorted(calls)))
-    lines.append(']')
-    lines.append('')
-    rh = route_handlers()
-    lines.append('/-- (route, method, handler function) -/')
-    lines.append('def routes : List (String × String × String) := [')
-    lines.append(',\n'.join('  (%s, %s, %s)' % (lean_str(r), lean_str(m), lean_str('%s.%s' % (mn, fn)))
-                            for (r, m, mn, fn) in rh))
-    lines.append(']')
-    lines.append('')
-    lines.append('/-- per route handler definition (one per version window): every clause reachable through calls\n'
-                 'inside placement.handlers / placement.util, callers first -/')
-    lines.append('def handlerClauses : List (String × (Nat × Nat) × (Nat × Nat) × List (String × Clause)) := [')
+    E.append('/-- per function: its `except` clauses in source order -/')
+    E.append('def funcClauses : List (Fn × List Clause) := [')
+    E.append(',\n'.join('  (.%s, %s)' % (fn[k], lean_list(clause(c) for c in func_rows[k])) for k in sorted(func_rows)))
+    E.append(']')
+    E.append('')
+    E.append('/-- per function: the functions of placement.handlers / placement.util it calls (source order) -/')
+    E.append('def funcCalls : List (Fn × List Fn) := [')
+    E.append(',\n'.join('  (.%s, %s)' % (fn[k], lean_list('.' + fn[c] for c in calls[k])) for k in sorted(calls)))
+    E.append(']')
+    E.append('')
+    E.append('/-- functions of placement/util.py (their clauses guard their own `try` bodies) -/')
+    E.append('def utilFns : List Fn := %s' % lean_list('.' + fn[k] for k in sorted(func_rows) if k.startswith('placement.util.')))
+    E.append('')
+    E.append('/-- (route, method, handler) -/')
+    E.append('def routes : List (String × String × Handler) := [')
+    E.append(',\n'.join('  (%s, %s, .%s)' % (lean_str(r), lean_str(m), hd['%s.%s' % (mn, f)]) for (r, m, mn, f) in rh))
+    E.append(']')
+    E.append('')
+    E.append('/-- per definition of a route handler (one per version window: handler, definition, first and last\n'
+             'version): every clause reachable through calls inside placement.handlers / placement.util, callers first -/')
+    E.append('def handlerClauses : List (Handler × Fn × (Nat × Nat) × (Nat × Nat) × List (Fn × Clause)) := [')
     hrows = []
-    seen = set()
-    for (_, _, mn, fn) in rh:
-        if (mn, fn) in seen:
-            continue
-        seen.add((mn, fn))
-        for fi in funcs_by_mod[mn][fn]:
+    for h in handlers:
+        mn, f = h.split('.')
+        for fi in funcs_by_mod[mn][f]:
             cl = []
             for k in closure(fi.key):
                 for c in func_rows.get(k, []):
-                    cl.append('(%s, %s)' % (lean_str(k), clause(c)))
-            hrows.append('  (%s, %s, %s, %s)' % (lean_str(fi.key), ver(fi.window[0]), ver(fi.window[1]),
-                                                 '[' + (',\n     '.join(cl)) + ']'))
-    lines.append(',\n'.join(sorted(hrows)))
-    lines.append(']')
-    lines.append('')
-    lines.append('/-- the two clauses of PlacementHandler.__call__ that surround every handler -/')
-    lines.append('def dispatchClauses : List Clause := %s' %
-                 lean_list(clause(c) for c in func_rows['placement.handler.PlacementHandler.__call__']))
-    lines.append('')
-    lines.append('/-- class of `placement.exception` with all its ancestors (MRO order) -/')
-    lines.append('def exceptionAncestors : List (String × List String) := [')
-    lines.append(',\n'.join('  (%s, %s)' % (lean_str(c), lean_list(lean_str(a) for a in anc))
-                            for c, anc in exception_hierarchy()))
-    lines.append(']')
-    lines.append('')
-    lines.append('/-- `placement.errors` -/')
-    lines.append('def errorCodes : List (String × String) := [')
-    lines.append(',\n'.join('  (%s, %s)' % (lean_str(n), lean_str(v)) for n, v in sorted(vars(errors).items())
-                            if n.isupper() and isinstance(v, str)))
-    lines.append(']')
-    lines.append('')
-    rows, ecm = formatter_structure()
-    lines += ['/-- guards inside `util.json_error_formatter` -/',
-              'inductive Guard where',
-              '  | always',
-              '  | hasVersion',
-              '  | hasRequestId',
-              '  | versionAtLeast (major minor : Nat)',
-              '  | statusEq (n : Nat)',
-              '  | and (a b : Guard)',
-              '  | not (a : Guard)',
-              'deriving Repr, DecidableEq', '',
-              '/-- key of the error object and the condition under which `json_error_formatter` sets it (source order) -/',
-              'def errorBodyKeys : List (String × Guard) := %s' %
-              lean_list('(%s, %s)' % (lean_str(k), g) for k, g in rows), '',
-              'def ERROR_CODE_MICROVERSION : Nat × Nat := %s' % ver(tuple(ecm)), '',
-              'end Placement.Gen.Errors']
-    return '\n'.join(lines) + '\n'
+                    cl.append('(.%s, %s)' % (fn[k], clause(c)))
+            hrows.append('  (.%s, .%s, %s, %s, %s)' % (hd[h], fn[fi.key], ver(fi.window[0]), ver(fi.window[1]),
+                                                   '[' + (',\n     '.join(cl)) + ']'))
+    E.append(',\n'.join(hrows))
+    E.append(']')
+    E.append('')
+    E.append('/-- the clauses of PlacementHandler.__call__ that surround every handler -/')
+    E.append('def dispatchClauses : List Clause := %s' %
+             lean_list(clause(c) for c in func_rows['placement.handler.PlacementHandler.__call__']))
+    E.append('')
+    E.append('/-- class of `placement.exception` with all its ancestors (MRO order) -/')
+    E.append('def exceptionAncestors : List (Exc × List Exc) := [')
+    E.append(',\n'.join('  (.%s, %s)' % (exc[c], lean_list('.' + exc[a] for a in anc)) for c, anc in hier))
+    E.append(']')
+    E.append('')
+    E.append('/-- `placement.errors` -/')
+    E.append('def errorCodes : List (String × String) := [')
+    E.append(',\n'.join('  (%s, %s)' % (lean_str(n), lean_str(v)) for n, v in sorted(vars(errors).items())
+                        if n.isupper() and isinstance(v, str)))
+    E.append(']')
+    E.append('')
+    frows, ecm = formatter_structure()
+    E += ['/-- guards inside `util.json_error_formatter` -/',
+          'inductive Guard where',
+          '  | always',
+          '  | hasVersion',
+          '  | hasRequestId',
+          '  | versionAtLeast (major minor : Nat)',
+          '  | statusEq (n : Nat)',
+          '  | and (a b : Guard)',
+          '  | not (a : Guard)',
+          'deriving Repr, DecidableEq', '',
+          '/-- key of the error object and the condition under which `json_error_formatter` sets it (source order) -/',
+          'def errorBodyKeys : List (String × Guard) := %s' %
+          lean_list('(%s, %s)' % (lean_str(k), g) for k, g in frows), '',
+          'def ERROR_CODE_MICROVERSION : Nat × Nat := %s' % ver(tuple(ecm)), '',
+          'end Placement.Gen.Errors']
+
+    # ------------------------------------------------------------------ Schemas.lean
+    L = [HEADER % 'JSON schemas of placement.schemas.* (runtime objects), regexes of placement.schemas.common, '
+                  'handler -> schema map.',
+         'import Placement.Model.Schema', 'import Placement.Gen.Errors', '',
+         'namespace Placement.Gen.Schemas', '', 'open Placement Placement.Regex', '']
+    bymod = {}
+    for m, n, d in schemas:
+        bymod.setdefault(m, []).append((n, d))
+    import placement.schemas.common as common
+    L.append('namespace common')
+    for n in sorted(vars(common)):
+        v = vars(common)[n]
+        if n.startswith('__') or not isinstance(v, str):
+            continue
+        L.append('/-- %s = %s -/' % (n, lean_str(v).replace('-/', '- /')))
+        L.append('def %s : Re := %s' % (lean_ident(n), regex_to_lean(v)))
+    L.append('end common')
+    L.append('')
+    allnames = []
+    for m in sorted(bymod):
+        if m == 'common':
+            raise ExtractError('schema dict in placement.schemas.common')
+        L.append('namespace %s' % lean_ident(m))
+        for n, d in bymod[m]:
+            L.append('def %s : Schema :=\n  %s' % (lean_ident(n), schema_to_lean(d, '%s.%s' % (m, n))))
+            L.append('')
+            allnames.append('%s.%s' % (m, n))
+        L.append('end %s' % m)
+        L.append('')
+    L.append('/-- every schema by its Python name (`module.CONSTANT`) -/')
+    L.append('def all : List (String × Schema) := [')
+    L.append(',\n'.join('  (%s, %s)' % (lean_str(n), n) for n in allnames))
+    L.append(']')
+    L.append('')
+    L += ['/-- what a handler validates with a schema -/',
+          'inductive Kind where',
+          '  | body   -- `util.extract_json(req.body, S)`',
+          '  | query  -- `util.validate_query_params(req, S)`',
+          '  | path   -- a path segment (`jsonschema.validate(name, S)`, or JSON built from it)',
+          'deriving Repr, DecidableEq', '',
+          'structure HandlerSchema where',
+          '  handler : Errors.Handler',
+          '  kind : Kind',
+          '  lo : Nat × Nat',
+          '  hi : Nat × Nat',
+          '  name : String',
+          '  schema : Schema', '',
+          '/-- the schema constant a handler validates with, per microversion window (both ends inclusive) -/',
+          'def handlerSchemas : List HandlerSchema := [']
+    L.append(',\n'.join('  ⟨.%s, .%s, %s, %s, %s, %s⟩' % (hd[h], k, ver(lo), ver(hi), lean_str(sn), sn)
+                        for (h, k, lo, hi, sn) in sorted(rows)))
+    L.append(']')
+    L.append('')
+    L.append('/-- `microversion.VERSIONS` -/')
+    L.append('def versions : List (Nat × Nat) := %s' % lean_list(ver(v) for v in allv))
+    L.append('')
+    L.append('end Placement.Gen.Schemas')
+    return {'Schemas.lean': '\n'.join(L) + '\n', 'Errors.lean': '\n'.join(E) + '\n'}
 
 
 def generate():
-    schemas_text, rows, funcs_by_mod = gen_schemas()
-    return {'Schemas.lean': schemas_text, 'Errors.lean': gen_errors(funcs_by_mod)}
+    return gen_all()
 
 
 if __name__ == '__main__':
